@@ -993,8 +993,54 @@ class Interp:
     def st_Expr(self, s):
         if isinstance(s.value, ast.Constant):
             return False
+        if isinstance(s.value, ast.Call) and self.inline_depth > 0 and getattr(self, 'inline_procedures', False) and \
+                self._inline_procedure(s.value):
+            return False
         self.ev(s.value)
         return False
+
+    def _inline_procedure(self, e):
+        """`helper(arr, a, b)` as a statement, helper a small package function without a return value that writes into
+        its array arguments: its body is executed here, parameters bound to the actual values, so that its loops and
+        stores belong to this kernel (a relabelling or fill loop moved into a helper reads as if written in place)"""
+        try:
+            f = self.prog.resolve_callable(self.func, self.mod, e.func)
+        except Exception:       # noqa
+            return False
+        if not isinstance(f, Func) or f.is_lambda or f is self.func or f.vararg or f.kwarg or f.parent is not None:
+            return False
+        if any(isinstance(x, ast.Return) and x.value is not None for x in ast.walk(f.node)) or \
+                any(isinstance(x, (ast.Yield, ast.YieldFrom, ast.Global, ast.Nonlocal)) for x in ast.walk(f.node)):
+            return False
+        if not any(isinstance(x, ast.Subscript) and isinstance(x.ctx, ast.Store) and isinstance(x.value, ast.Name) and
+                   x.value.id in f.params for x in ast.walk(f.node)):
+            return False        # not a procedure that writes its arguments
+        if sum(1 for x in ast.walk(f.node) if isinstance(x, ast.stmt)) > 25 or len(e.args) + len(e.keywords) > len(f.params):
+            return False
+        args = [self.ev(a) for a in e.args]
+        bind = dict(zip(f.params, args))
+        for k_ in e.keywords:
+            if k_.arg not in f.params or k_.arg in bind:
+                return False
+            bind[k_.arg] = self.ev(k_.value)
+        saved = (self.env, self.func, self.mod, self.inline_depth)
+        env = {}
+        for p in f.params:
+            if p in bind:
+                env[p] = bind[p]
+            elif p in f.defaults():
+                env[p] = None
+            else:
+                return False
+        self.env, self.func, self.mod, self.inline_depth = env, f, f.module, self.inline_depth - 1
+        try:
+            for p, dnode in f.defaults().items():
+                if env.get(p) is None and p not in bind:
+                    env[p] = self.ev(dnode)
+            self.block(f.node.body)
+        finally:
+            self.env, self.func, self.mod, self.inline_depth = saved
+        return True
 
     def st_Pass(self, s):
         return False
@@ -1621,8 +1667,9 @@ def _read_before_write(stmts, name):
     return False
 
 
-def interpret(prog, func, args=None, strict=True, inline_depth=3):
+def interpret(prog, func, args=None, strict=True, inline_depth=3, inline_procedures=False):
     it = Interp(prog, func, args, strict=strict, inline_depth=inline_depth)
+    it.inline_procedures = inline_procedures
     for p, dnode in func.defaults().items():
         pass
     return it.run()
